@@ -4,7 +4,10 @@
    prints one path to every distinct state; the driver replays each path into the real library
    and then applies EVERY action to the state reached (transition-complete replay).             *)
 EXTENDS Table, Json, SequencesExt
-CONSTANTS MAXR, MAXC, DEPTH, PATS, SIZEACTS, W, H, SIM
+CONSTANTS MAXR, MAXC, DEPTH, PATS, SIZEACTS, W, H, SIM,
+          VARS      \* document variants of the table the history starts from (the state record is the same; the XML is not):
+                    \*   0 as add_table writes it;  1 the optional a:tblPr is absent;  2 no cell has an a:tcPr;
+                    \*   3 a:extLst children in every a:tr (behind its cells), a:tc (behind a:tcPr) and a:gridCol
 VARIABLES st, hist
 
 Tok(i, j, c) == (i - 1) * c + j
@@ -16,12 +19,12 @@ PatTxt(p, i, j, c) ==
     \* blank bodies of every length next to each other: one empty paragraph (the only body the code calls "empty"), two and three
     \* empty paragraphs (not "empty" for the code, yet without any text), and a lone text cell
     [] p = 5 -> CASE (i + 2 * j) % 4 = 3 -> <<0>> [] (i + 2 * j) % 4 = 0 -> <<0, 0>> [] (i + 2 * j) % 4 = 1 -> <<0>> [] OTHER -> IF j = c THEN <<0, 0, 0>> ELSE <<Tok(i, j, c)>>
-Create(r, c, p) == [op |-> "create", r |-> r, c |-> c, w |-> W, h |-> H, pat |-> p,
-                    txt |-> [i \in 1..r |-> [j \in 1..c |-> PatTxt(p, i, j, c)]]]
+Create(r, c, p, v) == [op |-> "create", r |-> r, c |-> c, w |-> W, h |-> H, pat |-> p, var |-> v,
+                       txt |-> [i \in 1..r |-> [j \in 1..c |-> PatTxt(p, i, j, c)]]]
 
-Init == \E r \in 1..MAXR, c \in 1..MAXC, p \in PATS :
-           /\ hist = <<Create(r, c, p)>>
-           /\ st = ImplCreate(r, c, W, H, Create(r, c, p).txt)
+Init == \E r \in 1..MAXR, c \in 1..MAXC, p \in PATS, v \in VARS :
+           /\ hist = <<Create(r, c, p, v)>>
+           /\ st = ImplCreate(r, c, W, H, Create(r, c, p, v).txt)
 
 SizeActs(s) == IF SIZEACTS THEN {[op |-> "colw", i |-> i, v |-> v] : i \in 1..C(s), v \in {1, 40}} \cup
                                 {[op |-> "rowh", i |-> i, v |-> v] : i \in 1..R(s), v \in {3}} \cup
